@@ -152,6 +152,20 @@ Definition val_eqb (a b : val) : bool :=
   | _, _ => false
   end.
 
+(* meaning of a symbolic value in a concrete run that started with (regs0, xmm0, mem0) in world W *)
+Definition den (W : world) (regs0 : reg -> Z) (xmm0 : nat -> Z * Z) (mem0 : Z -> Z) (v : val) : Z :=
+  match v with
+  | VInit r => regs0 r
+  | VPtr o => regs0 RSP + o
+  | VOff r d => regs0 r + d
+  | VInitMem o => mem0 (regs0 RSP + o)
+  | VHav n r => w_regs W n r
+  | VCell n o => w_mem W n (regs0 RSP + o)
+  | VGlob g n => w_glob W g n
+  | VXlo x => fst (xmm0 x)
+  | VXhi x => snd (xmm0 x)
+  end.
+
 (* what a run of the abstract executor assumes about the concrete run it stands for *)
 Record params := {
   p_a0 : Z;                            (* rsp0 mod 16 *)
@@ -398,3 +412,20 @@ Definition spec_plt_resolve : spec :=
      s_memfrom := 0; s_allowed := [16] |}.
 Definition spec_plt_direct : spec :=
   {| s_pres := all_but_r10_r11; s_rsp := 16; s_target := VHav 0 RAX; s_memfrom := 16; s_allowed := [16] |}.
+
+(* ------------------------------------------------------------------ the guarantee, concretely *)
+(* What [spec] promises about EVERY concrete run of a stub from (regs, xmm, mem, zf) in world W:
+   no fault; control leaves to the stated target; the listed registers, rsp (shifted), all sixteen
+   xmm registers and every memory cell from rsp0 + s_memfrom upwards - except the hijacked slot(s) -
+   hold their entry values. *)
+Definition stub_guarantee (W : world) (regs : reg -> Z) (xmm : nat -> Z * Z) (mem : Z -> Z) (zf : bool)
+           (ext : option val) (sp : spec) (prog : list insn) : Prop :=
+  let c := cexec W prog (cstart regs xmm mem zf) in
+  cfault c = false /\
+  cend c = Some (den W regs xmm mem (s_target sp)) /\
+  (forall r, In r (s_pres sp) -> cr c r = regs r) /\
+  cr c RSP = regs RSP + s_rsp sp /\
+  (forall x, (x < 16)%nat -> cx c x = xmm x) /\
+  (forall o, s_memfrom sp <= o -> ~ In o (s_allowed sp) ->
+             (forall e, ext = Some e -> regs RSP + o <> den W regs xmm mem e) ->
+             cm c (regs RSP + o) = mem (regs RSP + o)).
